@@ -23,4 +23,9 @@ theorem Plane3_from_three_points_eq (p1 p2 p3 : V3 α) :
     GenRs.Plane3_from_three_points p1 p2 p3 = Plane3.ofThreePoints p1 p2 p3 := rfl
 theorem Plane3_from_surface_point_eq (sp : SP3 α) :
     GenRs.Plane3_from_surface_point sp = Plane3.ofNormalPoint sp.normal sp.point := rfl
+/-- `SvdBasis::rank`: the regenerated counting loop, run on the three singular values, is the model's `rank` -/
+theorem svd_rank_eq (S : SvdBasis3M α) (tol : α) : GenRs.svd_rank [S.s0, S.s1, S.s2] tol = S.rank tol := by
+  unfold GenRs.svd_rank SvdBasis3M.rank
+  simp only [List.foldl]
+  by_cases h0 : tol < S.s0 <;> by_cases h1 : tol < S.s1 <;> by_cases h2 : tol < S.s2 <;> simp [h0, h1, h2]
 end C19T
